@@ -608,6 +608,80 @@ def separator_refreshed(ctx, rule='C05.separator-refreshed'):
     return res
 
 
+def children_follow_data(ctx, rule='C05.children-follow-data'):
+    """when a node's entries are merged into a sibling, its loaded children go with them: the hand-over (`sibling.children.append(&mut node.children)` and the re-parenting
+    loop) runs whenever the data merge runs, except that it may be skipped when the SOURCE has no loaded children.  Guarded by anything else -- the sibling's children, a flag --
+    the modified children of the merged node are never written and the sibling's new entries point at their old pages"""
+    import c16
+    res = []
+    F = ctx.facts
+    n = 0
+    for fn in sorted(F.fns, key=lambda f: f.path):
+        if fn.kind == 'Closure' or not fn.self_adt or last_seg(fn.self_adt) != 'InnerBucket':
+            continue
+        if ctx.A.module_private(fn) and F.callers(fn):
+            continue
+        X = ctx.A.xf(fn)
+        du = None
+        merges, appends = [], []
+        for bb in sorted(X.reachable_blocks()):
+            t = X.term(bb)
+            c = callee_of(t) if t['k'] == 'call' else None
+            if not c or len(t['args']) != 2:
+                continue
+            du = du or ctx.du(X)
+            trees = [du.sym(a) for a in t['args']]
+
+            def fld(tr):
+                while tr[0] in ('un', 'ref') or (tr[0] == 'call' and len(tr[2]) == 1 and last_seg(strip_generics(tr[1])) in ('deref', 'deref_mut', 'borrow_mut', 'as_mut')):
+                    tr = tr[2] if tr[0] == 'un' else (tr[1] if tr[0] == 'ref' else tr[2][0])
+                return (tr[2][-1], tr[1]) if tr[0] == 'field' and tr[2] else (None, None)
+            (fa, ba), (fb, bb_) = fld(trees[0]), fld(trees[1])
+            if fa == fb == 'data' and ba != bb_:
+                merges.append(bb)
+            if fa == fb == 'children' and ba != bb_ and last_seg(strip_generics(c['path'])) in ('append', 'extend', 'extend_from_slice'):
+                appends.append((bb, ba, bb_))
+        if not merges or not appends:
+            continue
+        for (ab, dst, src) in appends:
+            ms = [m for m in merges if X.dominates(m, ab)] or merges
+            m = ms[-1]
+            n += 1
+            # the tests that lie between the data merge and the hand-over (the walk is one big loop, so control dependence in the large says nothing): switches reached
+            # from the merge without passing the hand-over, one side of which can still get to it before the next merge and the other cannot
+            between = X.reach_from(X.succ(m), avoid={ab, m})
+            extra = []
+            for a in sorted(between):
+                if X.term(a)['k'] != 'switch':
+                    continue
+                can = [ab in X.reach_from([y], avoid={m}) for y in X.succ(a)]
+                if any(can) and not all(can):
+                    extra.append(a)
+            wrong = None
+            for a in extra:
+                tr = du.sym(X.term(a)['discr'])
+                def norm(b):
+                    # `*node.borrow()` and `*node.borrow_mut()` are the same node
+                    while b[0] == 'call' and len(b[2]) == 1 and last_seg(strip_generics(b[1])) in ('deref', 'deref_mut', 'borrow', 'borrow_mut', 'as_ref', 'as_mut'):
+                        b = b[2][0]
+                    return b
+                nsrc, ndst = norm(src), norm(dst)
+                on_src = c16._tree_has(tr, lambda x: x[0] == 'field' and x[2] and x[2][-1] == 'children' and norm(x[1]) == nsrc)
+                on_dst = c16._tree_has(tr, lambda x: x[0] == 'field' and x[2] and x[2][-1] == 'children' and norm(x[1]) == ndst)
+                if on_dst or not on_src:
+                    wrong = (a, 'the children of the node that RECEIVES the entries' if on_dst else 'something other than the children of the node being merged')
+            if wrong:
+                res.append(bad(rule, '%s | hand-over of loaded children guarded by the wrong condition' % fn.qual,
+                               'the children of a merged node are handed to the sibling at %s only under a test (%s) of %s: when that test fails the modified children stay attached to '
+                               'the deleted node, are never written, and the entries moved to the sibling point at their old pages' % (X.loc(ab), X.loc(wrong[0]), wrong[1]), where=X.loc(wrong[0])))
+            else:
+                res.append(ok(rule, '%s: loaded children follow the merged entries at %s (skipped at most when the merged node has none)' % (fn.qual, X.loc(ab)), sites=1))
+    f = floor(rule, 'hand-overs of loaded children next to a data merge', n, 1)
+    if f:
+        res.append(f)
+    return res
+
+
 def run(ctx, tier):
     results = []
     results += freelist_order(ctx)
@@ -617,9 +691,15 @@ def run(ctx, tier):
     results += reader_writer_tables(ctx)
     results += page_kinds(ctx)
     results += run_length(ctx)
+    results += children_follow_data(ctx)
     # the built-in check (which strict mode runs inside every commit) accounts for the whole run of every page kind, or it rejects well-formed trees
     import c16
     results += c16.check_counts_runs(ctx, rule='C05.check-counts-runs')
+    results += c16.block_extent(ctx, rule='C05.block-extent')
+    import c07
+    results += c07.position_from_search(ctx, rule='C05.position-from-search')
+    # a torn header write falls back to the other slot: that slot has to hold the commit before, not the header of file creation
+    results += c02.alternate_rule(ctx, rule='C05.alternate')
     results += free_once(ctx)
     results += freelist_is_set(ctx)
     results += parent_links_refreshed(ctx)
